@@ -1114,6 +1114,14 @@ Section Bridge.
     Lemma no_validate_ok g v : has_validate g = false -> validate_weak re_match e g v = Ok tt.
     Proof. destruct g; try discriminate; reflexivity. Qed.
 
+    (* `except Exception:` catches what a bare `except:` catches, as far as the model can tell *)
+    Lemma catches_exception ex : catches [s2p "Exception"] ex = Ok (negb (model_exn ex)).
+    Proof. destruct ex; reflexivity. Qed.
+    Lemma catches_base_exception ex : catches [s2p "BaseException"] ex = Ok (negb (model_exn ex)).
+    Proof. destruct ex; reflexivity. Qed.
+
+    Ltac catch_spec := first [rewrite catch_all_spec | rewrite catches_exception | rewrite catches_base_exception].
+
     Lemma mfw_loop (nm v : pyval) : val_ok v = true -> forall gs ps,
       Forall2 (fun r g => exists q, r = iref q /\ at' q = Some g) ps gs ->
       refines (src_serialize_multifield_wrapper_loop1 W R v PF (fun _ => Raise ValueError) ps)
@@ -1127,17 +1135,17 @@ Section Bridge.
       - cbn [py_truthy mref bind]. rewrite (meth_validate _ _ _ Hq).
         destruct (validate_weak re_match e g v) as [[]|ex]; cbn [bind].
         + destruct Hf as [Hf|[Hf|Hf]].
-          * rewrite Hf. cbn [bind py_try catch_all model_exn negb]. left; reflexivity.
+          * rewrite Hf. cbn [bind py_try]. catch_spec. cbn [model_exn negb bind]. left; reflexivity.
           * destruct Hf as (x & Hx & Hm). rewrite Hx, Hm. right; left. exists x. split; [reflexivity|exact Hm].
           * rewrite Hf. destruct (sval rec g v) as [j|ex]; cbn [bind py_try]; [apply refines_refl|].
-            rewrite catch_all_spec. cbn [bind]. destruct (model_exn ex); cbn [negb]; [apply refines_refl|exact IH].
-        + cbn [py_try]. rewrite catch_all_spec. cbn [bind]. destruct (model_exn ex); cbn [negb]; [apply refines_refl|exact IH].
+            catch_spec. cbn [bind]. destruct (model_exn ex); cbn [negb]; [apply refines_refl|exact IH].
+        + cbn [py_try]. catch_spec. cbn [bind]. destruct (model_exn ex); cbn [negb]; [apply refines_refl|exact IH].
       - cbn [py_truthy bind]. rewrite (no_validate_ok _ _ Hg). cbn [bind].
         destruct Hf as [Hf|[Hf|Hf]].
-        * rewrite Hf. cbn [bind py_try catch_all model_exn negb]. left; reflexivity.
+        * rewrite Hf. cbn [bind py_try]. catch_spec. cbn [model_exn negb bind]. left; reflexivity.
         * destruct Hf as (x & Hx & Hm). rewrite Hx, Hm. right; left. exists x. split; [reflexivity|exact Hm].
         * rewrite Hf. destruct (sval rec g v) as [j|ex]; cbn [bind py_try]; [apply refines_refl|].
-          rewrite catch_all_spec. cbn [bind]. destruct (model_exn ex); cbn [negb]; [apply refines_refl|exact IH].
+          catch_spec. cbn [bind]. destruct (model_exn ex); cbn [negb]; [apply refines_refl|exact IH].
     Qed.
 
     Lemma irefs_forall2 p gs :
@@ -2007,13 +2015,13 @@ Qed.
 (* Where the translation answers Unmodelled instead of translating (a FunctionCall mapper's call with *args, the
    camel-case conversion's generator expression, item assignment on a container that may be shared with the caller
    -- the caller-supplied cache of serialize_val, the result of the compact branch --, setattr on the class).  None
-   of them is on a path the theorems above cover.  A new declined point changes this list. *)
+   of them is on a path the theorems above cover.  Each (function, kind) is listed once; a new kind of declined
+   point in a function changes this list. *)
 Example declined_inventory :
   src_declined =
   [("_get_mapped_value", "call:keywords-or-star");
    ("_convert_to_camel_case_if_required", "expression:GeneratorExp");
    ("serialize_val", "item-assignment:shared-container");
-   ("serialize_internal", "item-assignment:shared-container");
    ("serialize_internal", "item-assignment:shared-container");
    ("serialize_internal", "effect:setattr")]%string.
 Proof. reflexivity. Qed.
